@@ -54,8 +54,15 @@ func printReplay(e *env) error {
 		cc := &concretiser{rng: rng}
 		layout := printLayouts[idx%len(printLayouts)]
 		base := time.Date(2021, 3, 3, 0, 0, 0, 0, time.UTC)
-		dateOf := func(d int) string { return base.AddDate(0, 0, d).Format(layout) }
-		isoOf := func(d int) string { return base.AddDate(0, 0, d).Format("2006-01-02") }
+		yearStep := idx%5 == 3 // the second day: the same day of the year, one year later
+		at := func(d int) time.Time {
+			if yearStep && d == 2 {
+				return base.AddDate(1, 0, 1)
+			}
+			return base.AddDate(0, 0, d)
+		}
+		dateOf := func(d int) string { return at(d).Format(layout) }
+		isoOf := func(d int) string { return at(d).Format("2006-01-02") }
 		var lg strings.Builder
 		notes := map[int][][2]string{} // day index -> notes
 		for di, d := range c.Log {
@@ -169,7 +176,7 @@ func printReplay(e *env) error {
 				if how == "config" {
 					pre = []string{"-c", filepath.Join(dir, "cfg.ini")}
 				} else {
-					env = []string{"HR_DATE_FORMAT=" + layout}
+					env = []string{"HR_DATE_FORMAT=" + layout, "TZ=Asia/Tokyo"} // and a zone east of UTC
 				}
 				b1 := runBinary(dir, env, nil, append(append([]string{}, pre...), "print")...)
 				e.count(0, 1, 0)
